@@ -101,6 +101,28 @@ func checkC11(c *Case, st *Stats) string {
 				return fmt.Sprintf("length %d: selected a value outside the array: %v", n, v)
 			}
 		}
+		if (n+len(c.Path))%3 == 0 {
+			// the same subscripts in accessor mode, and with a user function right behind them: the
+			// selection (every index, duplicates kept, in order) is the same
+			var acfg jsonpath.Config
+			acfg.SetAccessorMode()
+			ga, ea := jsonpath.Retrieve(c.Path, doc, acfg)
+			gf, ef := jsonpath.Retrieve(strings.TrimRight(c.Path, " ")+".f1()", doc, BuildConfig(nil, true, false))
+			st.Eval(2)
+			if (ea == nil) != (rerr == nil) || len(ga) != len(got) || (ef == nil) != (rerr == nil) || len(gf) != len(got) {
+				return fmt.Sprintf("length %d: plain mode selects %s (%v); accessor mode %d values (%v); followed by a filter function %s (%v)", n, JSONString(got), rerr, len(ga), ea, JSONString(gf), ef)
+			}
+			for i := range got {
+				a, ok := ga[i].(jsonpath.Accessor)
+				if !ok || a.Get == nil || !reflect.DeepEqual(a.Get(), got[i]) {
+					return fmt.Sprintf("length %d: accessor %d is %s, plain mode selects %s", n, i, JSONString(ga[i]), JSONString(got[i]))
+				}
+				if !reflect.DeepEqual(gf[i], []interface{}{"f1", got[i]}) {
+					return fmt.Sprintf("length %d: followed by .f1(), result %d is %s, expected the function applied to %s", n, i, JSONString(gf[i]), JSONString(got[i]))
+				}
+			}
+			st.Class("accessor-mode-and-function-context")
+		}
 		// non-triviality
 		nt := false
 		for _, s := range c.AST.Steps[len(c.AST.Steps)-1].Sub {
